@@ -251,3 +251,14 @@ def textbook_definitions(ctx):
         name = a.split(':')[1]
         if name in what:
             _ref(ctx, a, src, what[name])
+
+
+@rule('C18.g', min_instances=5)
+def numpy_reductions_get_arrays(ctx):
+    """resolved callees: no numpy reduction reachable from the statistics, impose_* transforms and metrics is handed a generator expression (function-level `from numpy import sum` shadows the builtin; numpy.sum(<generator>) raises, so e.g. a weighted expectation would fail on every input)"""
+    from . import npcalls
+    ents = []
+    for mn in ('mystic.math.measures', 'mystic.math.distance'):
+        m = ctx.model.module(mn)
+        ents += [f.anchor for q, f in sorted(m.funcs.items()) if '.' not in q]
+    npcalls.check_closure(ctx, ents, min_sites=5)
